@@ -188,14 +188,23 @@ SdpaMasks == IF Big THEN Masks ELSE {"none", "bhst", "b11t", "st", "t", "hst", "
 \* sax: the Softmax axis: "neg" = -1 | "pos" = 3 (the same axis, spelled differently) | "absent" (default -1) | "two" / "one":
 \* another legal axis - not attention at all
 SdpaCfgs == {[fam |-> "sdpa", dt |-> dt, kfmt |-> kf, qs |-> sf[1], ks |-> sf[2], qks |-> sf[3], sc |-> sf[4], mask |-> m,
-              nanfix |-> nf, sax |-> "neg", B |-> z[1], H |-> z[2], S |-> z[3], T |-> z[4], Dh |-> z[5], Dv |-> z[6]] :
+              nanfix |-> nf, sax |-> "neg", symdh |-> FALSE, B |-> z[1], H |-> z[2], S |-> z[3], T |-> z[4], Dh |-> z[5], Dv |-> z[6]] :
              dt \in DT, kf \in {"t4", "r3", "bshd"}, sf \in (IF Big THEN ScaleForms ELSE ScaleFormsSmall), m \in SdpaMasks, nf \in BOOL, z \in SdpaSz}
             \cup
             {[fam |-> "sdpa", dt |-> dt, kfmt |-> kf, qs |-> sf[1], ks |-> sf[2], qks |-> sf[3], sc |-> sf[4], mask |-> m,
-              nanfix |-> FALSE, sax |-> sx, B |-> 2, H |-> 2, S |-> 3, T |-> 4, Dh |-> 4, Dv |-> 8] :
+              nanfix |-> FALSE, sax |-> sx, symdh |-> FALSE, B |-> 2, H |-> 2, S |-> 3, T |-> 4, Dh |-> 4, Dv |-> 8] :
              dt \in (IF Big THEN DT ELSE {"f32"}), kf \in {"t4", "r3", "bshd"},
              sf \in {<<"none", "none", "mul", "default">>, <<"none", "none", "div", "default">>, <<"none", "mul", "none", "other">>},
              m \in {"none", "b1st"}, sx \in {"pos", "absent", "two", "one"}}
+            \cup
+            \* head size and query length symbolic (dim_param) in the declared shapes: the unifier binds symbols, the scale of THIS match
+            \* must reach the fused operator although 1/sqrt(head size) cannot be computed (sdpa.py: `if not isinstance(head_size, int)`)
+            {[fam |-> "sdpa", dt |-> dt, kfmt |-> kf, qs |-> sf[1], ks |-> sf[2], qks |-> sf[3], sc |-> sf[4], mask |-> m,
+              nanfix |-> FALSE, sax |-> "neg", symdh |-> TRUE, B |-> 2, H |-> 2, S |-> 3, T |-> 4, Dh |-> 4, Dv |-> 8] :
+             dt \in (IF Big THEN DT ELSE {"f32"}), kf \in {"t4", "bshd"},
+             sf \in {<<"none", "none", "none", "one">>, <<"none", "none", "mul", "default">>, <<"none", "mul", "none", "other">>,
+                     <<"none", "none", "mul", "other">>, <<"mul", "none", "div", "other">>},
+             m \in {"none", "b1st"}}
 MhaBias == IF Big THEN {<<"none", "none", "none">>, <<"vec", "vec", "vec">>, <<"vec", "none", "none">>, <<"none", "none", "vec">>,
                         <<"one", "none", "none">>, <<"full", "vec", "vec">>, <<"row", "none", "vec">>}
            ELSE {<<"none", "none", "none">>, <<"vec", "vec", "vec">>, <<"one", "none", "none">>, <<"full", "vec", "vec">>}
@@ -313,9 +322,12 @@ SdpaCode(c) ==
     /\ c.fam \in {"sdpa", "mha", "gqa"} /\ Has("p:sdpa")
     /\ IF c.fam = "sdpa"
        THEN c.sax = "neg" /\          \* pattern: op.Softmax(attn_score, axis=-1) - the attribute must be present and equal -1
-            Unifies(<< <<<<c.B, c.H, c.S, c.Dh>>, <<"B", "H", "S", "Dh">>>>,
-                       IF c.kfmt = "bshd" THEN <<<<c.B, c.T, c.H, c.Dh>>, <<"B", "Skv", "H", "Dh">>>>
-                                           ELSE <<<<c.B, c.H, c.T, c.Dh>>, <<"B", "H", "Skv", "Dh">>>>,
+            LET dS == IF c.symdh THEN -1 ELSE c.S      \* symbolic dims are negative numbers (one per name)
+                dDh == IF c.symdh THEN -2 ELSE c.Dh
+            IN
+            Unifies(<< <<<<c.B, c.H, dS, dDh>>, <<"B", "H", "S", "Dh">>>>,
+                       IF c.kfmt = "bshd" THEN <<<<c.B, c.T, c.H, dDh>>, <<"B", "Skv", "H", "Dh">>>>
+                                           ELSE <<<<c.B, c.H, c.T, dDh>>, <<"B", "H", "Skv", "Dh">>>>,
                        <<<<c.B, c.H, c.T, c.Dv>>, <<"B", "H", "Skv", "Dv">>>> >>)
        ELSE TRUE
 \* ---- sdpa_via_mha.py: any SDPA left; mask expanded to [.,.,S,.]
